@@ -51,6 +51,10 @@ import (
 
 const c23Rule = "event sequences (length <= 8) over {Start, ManualStop (peer.stop()), AutomaticStop, Cease, ConnUp, good OPEN, bad OPEN (peer AS / identifier / role / version), KEEPALIVE, UPDATE, NOTIFICATION, malformed message, transport write failure, wait for timers} against a real FSM goroutine; session kinds: inbound connection on a passive peer, outgoing FSM of an active peer (connections handed over through conCh); hold time 90 s / 4 s / 0 / 60 ms local; iBGP/eBGP, peer role on/off. All sequences along the model's main line up to a length bound are enumerated, longer ones are drawn with rapid. Non-trivial: the observed trace reaches Established and leaves it."
 
+// c23NotifCodes: the (code, subcode) a peer's NOTIFICATION carries, chosen by the event's variant
+// (Cease, message header, OPEN, UPDATE, hold timer, FSM error).
+var c23NotifCodes = [][2]uint8{{6, 2}, {1, 1}, {2, 1}, {3, 1}, {4, 0}, {5, 0}}
+
 type c23Ev struct {
 	Kind    int
 	Variant int
@@ -319,7 +323,8 @@ func (x *c23Runner) exec(e c23Ev) bool {
 		if !session {
 			return false
 		}
-		x.feed(kit.Notification(6, 2, nil))
+		nc := c23NotifCodes[e.Variant%len(c23NotifCodes)]
+		x.feed(kit.Notification(nc[0], nc[1], nil))
 	case c23EvMalformed:
 		if !session {
 			return false
@@ -549,6 +554,13 @@ func c23Enumerate(base c23Case, prefix []int, depth int) []c23Case {
 				env2.WriteBroken = false
 			}
 			v := len(evs) + len(out) // vary the variants deterministically
+			if e == c23EvNotification && len(evs) >= len(prefix) {
+				// every NOTIFICATION error code gets its own case
+				for k := range c23NotifCodes {
+					rec(c23MainLine(s, e, env2), env2, append(append([]c23Ev{}, evs...), c23Ev{Kind: e, Variant: k}))
+				}
+				continue
+			}
 			if e == c23EvOpenBad && len(evs) >= len(prefix) {
 				// every kind of unacceptable OPEN (peer AS / identifier / role or version) gets its own case
 				for k := 0; k < 3; k++ {
